@@ -79,8 +79,11 @@ class SpatialTransformer(Module):
         self: TSpatialTransformer, *args, **kwargs
     ) -> Union[TSpatialTransformer, Tuple[tuple, dict]]:
         r"""Get or set data tensors and parameters on which transformation is conditioned."""
-        if args:
-            return shallow_copy(self).condition_(*args)
+        if args or kwargs:
+            copy = shallow_copy(self)
+            copy._modules = copy._modules.copy()  # not shared with self, which keeps its transformation
+            copy._transform = self._transform.condition(*args, **kwargs)
+            return copy
         return self._transform.condition()
 
     def condition_(self: TSpatialTransformer, *args, **kwargs) -> TSpatialTransformer:
